@@ -30,6 +30,16 @@ func VerifURLLines(svc *protogen.Service, m *protogen.Method) *protogen.Plugin {
 	g := New(p)
 	gf := p.NewGeneratedFile("url.go", "")
 	c := g.buildRPCMethodConfig(svc, m)
-	g.generateURLBuilding(gf, c.fullPath, c.pathParams, c.queryParams, c.httpMethod)
+	g.generateURLBuilding(gf, m.Input, c.fullPath, c.pathParams, c.queryParams, c.httpMethod)
+	return p
+}
+
+// VerifURLLinesFor emits the URL building for an explicit path and path-variable list
+// (no template parsing).
+func VerifURLLinesFor(input *protogen.Message, fullPath string, pathParams []string) *protogen.Plugin {
+	p := &protogen.Plugin{}
+	g := New(p)
+	gf := p.NewGeneratedFile("url.go", "")
+	g.generateURLBuilding(gf, input, fullPath, pathParams, nil, "GET")
 	return p
 }
